@@ -46,3 +46,9 @@ CLAIMS["C06"] = dict(
     text="Every program of type{int,hex,float} x range kind x default kind x indirect-set kind x prompt kind is driven with every input of a per-type alphabet containing malformed classes (underscores, blanks, signs, other bases, huge, non-finite, empty) through Symbol.set_value, an sdkconfig line and kconfserver.handle_set, in every assignment of the condition/bound options; for every option the exposed value must be well-formed for its type, empty only if nothing provides a value, inside the first active range, and header/CMake/JSON/sdkconfig must render the same number without raising.",
     note="Exceptions escaping the server handler are counted, not alarmed (C15 owns them); inverted ranges (low > high) are not generated.",
 )
+CLAIMS["C10"] = dict(
+    category="exploration",
+    technique="bounded exhaustive enumeration (C01 families + choice and menu-label programs) x all user assignments x all writer variants; real minimal-config writer composed with a fresh real loader",
+    text="For every program and every assignment of user values the minimal configuration is produced by Kconfig.write_min_config in all four labels x normalize_unset variants and by kconfgen.write_min_config (with and without ESP_IDF_KCONFIG_MIN_LABELS); every distinct file is loaded into a fresh instance of the same tree and every option's value compared with the original; labelled and unlabelled variants must list the same assignment lines in the same order.",
+    note="Quick tier uses a 2-value domain per non-bool type chosen to include a value equal to a Kconfig default; thorough the full C01 domains.",
+)
